@@ -1,0 +1,14 @@
+//go:build verif
+
+// Contracts for package pipeline, read by /verif/engine (govc). Comments only.
+package pipeline
+
+// ---------------------------------------------------------------- window.go (C03, C05)
+// "defining it returns either a task or an error": a window definition that passes validation
+// can be executed -- in particular a count window has a positive size and step (the executing
+// node allocates periodCount slots and indexes them).
+//@ func (*WindowNode).validate
+//@   props C03 C05
+//@   requires w != nil
+//@   modifies nothing
+//@   ensures [count-window-executable] result == nil && w.PeriodCount != 0 ==> w.PeriodCount > 0 && w.EveryCount > 0 && w.Period == 0 && !w.AlignFlag
